@@ -192,27 +192,22 @@ func (v *Version) Compare(other *Version) int {
 		return compareInt(v.patch, other.patch)
 	}
 
-	// Handle pseudo-version comparison
-	if v.pseudo != nil && other.pseudo != nil {
-		return v.pseudo.timestamp.Compare(other.pseudo.timestamp)
-	}
-	if v.pseudo != nil && other.pseudo == nil {
-		// Pseudo-versions are pre-release, so they come before releases
-		if other.prerelease == "" {
-			return -1
-		}
-		// Compare with prerelease
-		return comparePrerelease("pseudo", other.prerelease)
-	}
-	if v.pseudo == nil && other.pseudo != nil {
-		if v.prerelease == "" {
-			return 1
-		}
-		return comparePrerelease(v.prerelease, "pseudo")
-	}
+	// Compare prerelease according to semver rules; a pseudo-version orders as its SemVer spelling
+	return comparePrerelease(v.semverPrerelease(), other.semverPrerelease())
+}
 
-	// Compare prerelease according to semver rules
-	return comparePrerelease(v.prerelease, other.prerelease)
+// semverPrerelease returns the pre-release part of the version's SemVer spelling
+func (v *Version) semverPrerelease() string {
+	if v.pseudo == nil {
+		return v.prerelease
+	}
+	// Every pseudo-version pattern has the form vX.Y.Z-<prerelease>; build metadata is ignored
+	spelling := strings.TrimSpace(v.original)
+	prerelease := spelling[strings.Index(spelling, "-")+1:]
+	if i := strings.Index(prerelease, "+"); i >= 0 {
+		prerelease = prerelease[:i]
+	}
+	return prerelease
 }
 
 // String returns the string representation of the version
@@ -244,23 +239,39 @@ func comparePrerelease(a, b string) int {
 		return -1
 	}
 
-	// Special handling for pseudo-versions
-	if a == "pseudo" && b != "pseudo" {
-		return -1
-	}
-	if a != "pseudo" && b == "pseudo" {
-		return 1
-	}
-	if a == "pseudo" && b == "pseudo" {
-		return 0
+	// Compare dot-separated identifiers from left to right
+	aParts := strings.Split(a, ".")
+	bParts := strings.Split(b, ".")
+	for i := 0; i < len(aParts) && i < len(bParts); i++ {
+		if cmp := compareIdentifier(aParts[i], bParts[i]); cmp != 0 {
+			return cmp
+		}
 	}
 
-	// Lexicographic comparison for prereleases
-	if a < b {
+	// A larger set of identifiers has higher precedence if all preceding ones are equal
+	return compareInt(len(aParts), len(bParts))
+}
+
+// compareIdentifier compares two pre-release identifiers: numeric ones numerically and
+// below alphanumeric ones, alphanumeric ones in ASCII order
+func compareIdentifier(a, b string) int {
+	aIsNum := strings.TrimLeft(a, "0123456789") == ""
+	bIsNum := strings.TrimLeft(b, "0123456789") == ""
+
+	switch {
+	case aIsNum && bIsNum:
+		// Numeric identifiers of any length: without leading zeros the longer one is larger
+		a = strings.TrimLeft(a, "0")
+		b = strings.TrimLeft(b, "0")
+		if len(a) != len(b) {
+			return compareInt(len(a), len(b))
+		}
+		return strings.Compare(a, b)
+	case aIsNum:
 		return -1
-	}
-	if a > b {
+	case bIsNum:
 		return 1
+	default:
+		return strings.Compare(a, b)
 	}
-	return 0
 }
